@@ -575,10 +575,23 @@ class Frac:
         if n == Q(1, 3):
             from . import atoms
             return atoms.cbrt(self)
-        raise NotImplementedError(f"power {n!r}")
+        if isinstance(n, Q) and n.denominator in (4, 8) and n > 0:
+            from . import atoms
+            r = self
+            d = n.denominator
+            while d > 1:
+                r = atoms.sqrt(r); d //= 2
+            return r ** n.numerator
+        if isinstance(n, Q) and n.denominator == 2:
+            from . import atoms
+            r = atoms.sqrt(self)
+            return r ** n.numerator if n > 0 else (r ** (-n.numerator)).inv()
+        from .atoms import EngineGap
+        raise EngineGap(f"power {n!r} of a symbolic value")
 
     def __rpow__(self, b):
-        raise NotImplementedError("symbolic exponent")
+        from .atoms import EngineGap
+        raise EngineGap("symbolic exponent")
 
     def __abs__(self):
         from . import atoms
